@@ -63,6 +63,12 @@ impl<'tcx> M<'tcx> {
         o.put("ty", ti);
         if let ty::FnDef(fdid, ga) = t.kind() {
             o.put("fn", J::s(dps(self.tcx, *fdid)));
+            if let Ok(Some(inst)) = Instance::try_resolve(self.tcx, self.env, *fdid, ga) {
+                let rd = inst.def_id();
+                if rd != *fdid {
+                    o.put("r", J::s(dps(self.tcx, rd)));
+                }
+            }
             if !ga.is_empty() {
                 o.put(
                     "ga",
